@@ -41,7 +41,7 @@ def _gen_one(job):
                 vcs.append((ob.name, ob.kind, ob.info, None))
             else:
                 vcs.append((ob.name, ob.kind, ob.info, smt.to_smt2(ob.hyps, g)))
-        reach = [smt.to_smt2(ob.hyps, ob.goal, want_axioms=False) for ob in rep.reach[:6]]
+        reach = [smt.to_smt2(ob.hyps, ob.goal, want_axioms=False, use_theories=False) for ob in rep.reach[:6]]
     else:
         reach = []
     return {
